@@ -243,6 +243,19 @@ CLAIMED['C12'] = dict(
          'real-thread stress run (1/2/4 writers + a draining thread), which is a sample of schedules, not an exploration.',
     design='§6 C12')
 
+CLAIMED['C18'] = dict(
+    text='Proved on the real source (glue): generate_shared_secret is exactly one fresh os.urandom(16) per call; '
+         'create_AES_cipher = AES(key = secret) with CFB8(iv = secret); encrypt_token_and_secret returns (RSA(token), RSA(secret)) '
+         'under the key loaded from the DER bytes with PKCS#1 v1.5 (must-fail twin: swapped); the socket/file wrappers are stream '
+         'transformers over their contexts for EVERY split into send/recv/read calls, each direction through its own context, one '
+         'underlying call per call; the login reaction installs encryptor/decryptor of ONE cipher keyed by the transmitted secret '
+         'after the clear-text response.',
+    note='ASSUMED, only sampled (bounded, never counted as proved): that the cryptography primitives compute AES-128-CFB8 and '
+         'that RSA decryption inverts encryption - compared on every run with an independent pure-Python AES-128-CFB8 '
+         '(spec/aes.py, FIPS-197 vector checked) over random streams and partitions in both directions, and RSA round trips for '
+         'token lengths 1..64 under locally generated 1024/2048-bit keys.',
+    design='§6 C18')
+
 PLANNED = {
     'C01': 'check not built yet (DESIGN §6 C01): frame contracts on Packet.write/_write_buffer/read_packet',
     'C02': 'check not built yet (DESIGN §6 C02)',
